@@ -129,7 +129,7 @@ Proof. exact gen_render_msg_full_is_spec. Qed.
 Print Assumptions C03_translated_render_full_is_spec.
 
 (* the statements of runner.go / ir_loader.go that the report model mirrors are the ones in the source today *)
-Theorem C03_report_path_facts : forallb snd gen_c03_facts = true /\ (25 <= List.length gen_c03_facts)%nat.
+Theorem C03_report_path_facts : forallb snd gen_c03_facts = true /\ (26 <= List.length gen_c03_facts)%nat.
 Proof. exact (conj c03_facts_hold c03_facts_count). Qed.
 Print Assumptions C03_report_path_facts.
 
